@@ -456,6 +456,16 @@ struct Emit
       go("Adexp", t, al);
       go("ad", t, a);
       go("bracket", t, a, b);
+      {  // whole-argument scalings: bilinearity must hold however small one argument is
+        const S tiny = std::is_same_v<S, double> ? S(1e-14) : S(1e-7);
+        const Tangent at = a * tiny, bt = b * tiny, bb = b / tiny;
+        go("ad", "tiny_a", at);
+        go("bracket", "tiny_a", at, b);
+        go("ad", "tiny_b", a);
+        go("bracket", "tiny_b", a, bt);
+        go("ad", "scaled", at);
+        go("bracket", "scaled", at, bb);
+      }
       go("dr_exp", t, a);
       go("dl_exp", t, a);
       go("dr_expinv", t, al);
